@@ -319,6 +319,19 @@ impl Stats {
     pub fn eval<C: Case>(&mut self, c: &C, f: impl FnOnce(&mut Stats, &C)) {
         self.eval_opt(c, f, true)
     }
+    /// Sequential sharding: would the next `eval` be evaluated by this shard? (lets a workload skip building an
+    /// expensive case it will not evaluate; pair with `skip_one`)
+    #[inline]
+    pub fn next_is_mine(&self) -> bool {
+        self.seq_shard.1 <= 1 || (self.seq + 1) % self.seq_shard.1 == self.seq_shard.0
+    }
+    /// advances the sequential-sharding counter exactly as a skipped `eval` would
+    #[inline]
+    pub fn skip_one(&mut self) {
+        if self.seq_shard.1 > 1 {
+            self.seq += 1;
+        }
+    }
     /// like `eval`, but never skipped by sequential sharding (set-up work every shard needs, e.g. compiling a picture)
     #[inline]
     pub fn eval_unsharded<C: Case>(&mut self, c: &C, f: impl FnOnce(&mut Stats, &C)) {
